@@ -6,6 +6,7 @@ CONSTANTS
   PreStates <- QPre
   GuardFinal = TRUE
   FileRoots = FALSE
+  MatchPaths <- NoMatch
 SPECIFICATION Spec
 CHECK_DEADLOCK FALSE
 INVARIANT Emit
